@@ -208,6 +208,33 @@ func NewEnv(t *testing.T, cfg Config) *Env {
 	return e
 }
 
+// addValidator: a validator created after assets exist. Its operator address sorts after all existing ones (32 bytes, larger
+// last byte), so validator ids stay in key order; it self-delegates natively and joins the set at the next staking end blocker.
+func (e *Env) addValidator() {
+	n := len(e.Vals)
+	if n >= 6 {
+		return
+	}
+	pks := allianceapp.CreateTestPubKeys(n + 1)
+	valAddr := sdk.ValAddress(mkAddrN(0xA0, n, 32))
+	v := teststaking.NewValidator(e.T, valAddr, pks[n])
+	v.Commission = stakingtypes.NewCommission(math.LegacyZeroDec(), math.LegacyOneDec(), math.LegacyZeroDec())
+	allianceapp.RegisterNewValidator(e.T, e.App, e.Ctx, v)
+	cons, err := v.GetConsAddr()
+	if err != nil {
+		panic(err)
+	}
+	e.Vals = append(e.Vals, valAddr)
+	e.Cons = append(e.Cons, cons)
+	nd := sdk.AccAddress(mkAddr(0xB0, n))
+	e.Natives = append(e.Natives, nd)
+	e.mint(nd, sdk.NewCoins(sdk.NewCoin(Denoms[DenomBond], math.NewInt(1_000_000_000))))
+	val, _ := e.App.StakingKeeper.GetValidator(e.Ctx, valAddr)
+	if _, err := e.App.StakingKeeper.Delegate(e.Ctx, nd, math.NewInt(1_000_000), stakingtypes.Unbonded, val, true); err != nil {
+		panic(err)
+	}
+}
+
 func (e *Env) Authority() string { return authtypes.NewModuleAddress(govtypes.ModuleName).String() }
 
 func bigTimeNs(t time.Time) *big.Int {
